@@ -1,3 +1,3 @@
 From Coq Require Extraction ExtrOcamlBasic.
 From V Require Import Model.C23.
-Extraction "c23model.ml" sort_imports_exec block_runs_exec runs mixed_ties.
+Extraction "c23model.ml" sort_imports_lines_exec groups_in line_at sort_imports_exec block_runs_exec runs mixed_ties path_sorted key_eqb.
